@@ -107,6 +107,49 @@ Proof.
 Qed.
 Print Assumptions C15_link_adds_nothing.
 
+(* ... in particular creating a link (to anything, anywhere) changes no total *)
+Theorem C15_new_link_adds_nothing :
+  forall (root : fnode) (loc : path) (nm : string) (ab : bool) (tgt : path)
+         (is_src : string -> bool) (F : nat) (dirs : list path),
+    let root2 := add_node root loc nm (Link ab tgt) in
+    wf root -> wf root2 ->
+    Forall (fun d => is_real root d = true) dirs -> Forall (fun d => is_real root2 d = true) dirs ->
+    counted root2 is_src F dirs = counted root is_src F dirs.
+Proof.
+  intros root loc nm ab tgt is_src F dirs root2 W1 W2 D1 D2.
+  rewrite (counted_rl root is_src F W1 dirs D1), (counted_rl root2 is_src F W2 dirs D2).
+  unfold root2. rewrite add_link_rl. reflexivity.
+Qed.
+Print Assumptions C15_new_link_adds_nothing.
+
+(* Counted once: with one code-base directory (what the command-line tools construct)
+   no path is counted twice and every counted path is its own realpath, so no physical
+   file is counted twice. *)
+Theorem C15_enumerated_once :
+  forall (root : fnode) (is_src : string -> bool) (F : nat) (d : path),
+    wf root -> is_real root d = true ->
+    NoDup (counted root is_src F [d]) /\
+    (forall p, In p (counted root is_src F [d]) -> forall f, realpath root f p = Ok p).
+Proof.
+  intros root is_src F d Hwf Hd. split; [apply counted_NoDup; exact Hwf|].
+  intros p Hin. apply (counted_real root is_src F [d] p Hwf); [constructor; [exact Hd|constructor]|exact Hin].
+Qed.
+Print Assumptions C15_enumerated_once.
+
+(* ... but NOT with several directories that overlap (CodeBase(d, alias_of_d) or a
+   directory and one of its sub-directories): every file is then enumerated, and
+   counted, once per directory.  Known finding "overlapping-roots". *)
+Theorem C15_overlapping_dirs_refuted :
+  exists (root : fnode) (is_src : string -> bool) (dirs : list path),
+    wf root /\ Forall (fun d => is_real root d = true) dirs /\
+    ~ NoDup (counted root is_src 40 dirs).
+Proof.
+  exists (Dir [("a.c", File "a")]), (fun _ => true), [[]; []].
+  split; [constructor; [repeat constructor; cbn; tauto|repeat constructor]|].
+  split; [repeat constructor|]. vm_compute. intros H. inversion H as [|x l Hn _]; subst. apply Hn. left. reflexivity.
+Qed.
+Print Assumptions C15_overlapping_dirs_refuted.
+
 (* Membership is decided on the resolved path: a member's realpath is a regular file
    below one of the code-base directories; so a link whose target lies outside every
    directory is not a member, wherever the link itself is. *)
